@@ -169,6 +169,9 @@ def install(seed, max_steps=400000, max_virtual=600.0):
         sim.S.rec('iter.next', self.job_id, v)
         return v
 
+    # job ids are drawn from a process-global counter: restart it so that a scenario does not depend on what ran before it
+    import itertools as _it
+    _set(mpire.async_result, 'job_counter', _it.count(start=1))
     _saved.append((IT, 'next', orig_next))
     _saved.append((IT, '__next__', IT.__dict__['__next__']))
     IT.next = next_
